@@ -52,7 +52,7 @@ end
 /-! ### forgetting the identities -/
 
 def Scalar.toPV : Scalar → PV
-  | .none => .none | .bool b => .bool b | .int i => .int i | .flt m e => .flt m e | .str s => .str s
+  | .none => .none | .bool b => .bool b | .int i => .int i | .flt f => .flt f | .str s => .str s
 
 def zipStr : List String → List PV → List (Key × PV)
   | k :: ks, v :: vs => (.str k, v) :: zipStr ks vs
